@@ -48,6 +48,13 @@ HAND = [
         "nul": {"type": ["integer", "null"], "default": None},
         "flag": {"type": "boolean", "default": True},
         "inner": {"type": "object", "properties": {"a": {"type": "integer"}, "b": {"type": "array", "items": {"type": "integer"}}}, "default": {"a": 1}}}}}},
+    # typed integer enumerations that list the bounds of every recognised format (values beyond i64 included)
+    {"definitions": dict(
+        [("E" + f.capitalize(), {"type": "integer", "format": f, "enum": [lo, 0, hi] if lo < 0 else [0, 1, hi]})
+         for f, lo, hi in (("int8", -128, 127), ("int16", -32768, 32767), ("int32", -2**31, 2**31 - 1), ("int64", -2**63, 2**63 - 1),
+                           ("uint8", 0, 255), ("uint16", 0, 65535), ("uint32", 0, 2**32 - 1), ("uint64", 0, 2**64 - 1))] +
+        [("Quota", {"type": "object", "required": ["limit"], "properties": {"limit": {"type": "integer", "format": "uint64", "enum": [0, 2**63, 2**64 - 1]},
+                                                                               "burst": {"type": "integer", "minimum": 0, "enum": [10, 2**64 - 1]}}})])},
 ]
 
 def file_documents():
